@@ -5,17 +5,17 @@ import json, subprocess
 CLAIMED = {
  "C18": dict(
   text="Contract-based deductive proof of the real bit-field primitives: extractBitfield and setBitfield against an executable bit-array specification for every (offset mod 8, width) and every byte offset/content (512-case complete split, bit-vector semantics), signExtend / isSignedSumOverflow / isUnsignedOverflow / saturateValue against range specifications for every width; all implicit Go safety conditions (index bounds, shifts) of those functions.",
-  note="Trusted: govc (our VC generator), the SMT solvers, GOARCH=amd64. The command layer (fnBitfield/bitfieldWrite argument plumbing, BITCOUNT/BITPOS/BITOP loops) is not yet under contract; evidence lists what is.",
+  note="Trusted: govc (our VC generator), the SMT solvers, GOARCH=amd64. BITCOUNT's range normalisation is under contract (panic-free for every start/end/unit, empty value counts 0; two defects repaired). fnBitfield/bitfieldWrite argument plumbing and the BITPOS/BITOP loops are not; evidence lists what is.",
   design="DESIGN.md §6 C18"),
 }
 CLAIMED.update({
  "C01": dict(
-  text="Deductive proof (cursor discipline) for the real RESP deserializer: findNextLine returns the first CRLF at or after the cursor (loop invariant, all buffer contents), peekBulkLine consumes exactly the declared length and checks the trailing CRLF without any index wrap (64-bit vector semantics), every value-level parser advances the cursor monotonically, strictly on success, never past the buffer, and deserializeNext reports exactly the number of bytes consumed. This is the sequential core of 'consume exactly the parsed length, keep the rest'.",
-  note="Not decided here: TCP delivery/scheduling, the goroutine hand-off in clientCxn.run, reply serialisation and CR/LF-freedom of error strings (planned, see DESIGN §6 C01). Trusted: govc, SMT solvers; strconv.ParseInt modelled by uninterpreted parseOK/parseVal.",
+  text="Deductive proof (cursor discipline) for the real RESP deserializer: findNextLine returns the first CRLF at or after the cursor (loop invariant, all buffer contents), peekBulkLine consumes exactly the declared length and checks the trailing CRLF without any index wrap (64-bit vector semantics), every value-level parser advances the cursor monotonically, strictly on success, never past the buffer, and deserializeNext reports exactly the number of bytes consumed. This is the sequential core of 'consume exactly the parsed length, keep the rest'. The connection's receive path is under contract as well: every socket read goes into a buffer the call allocated itself (ownership condition, so unparsed bytes kept from earlier reads cannot be overwritten), a command consumes exactly the byte count the parser reported (0 < n <= pending bytes), and an invalid or incomplete parse reports length 0.",
+  note="Not decided here: TCP delivery/scheduling, the goroutine hand-off in clientCxn.run, reply serialisation and CR/LF-freedom of error strings, malformed input that is neither complete nor answerable (the connection waits - see DESIGN B.8). Slices are values in the verifier's memory model; the freshness of the read buffer is the stated ownership condition. Trusted: govc, SMT solvers; strconv.ParseInt modelled by uninterpreted parseOK/parseVal; net.Conn.Read stub.",
   design="DESIGN.md §6 C01"),
  "C13": dict(
   text="Deductive no-panic proof for everything the RESP parser does with client bytes: every index, slice, nil dereference, type assertion, make size and map-key hashability condition in the 25 deserializer functions (and the bit-field primitives) is an obligation discharged for all inputs; value-level parsers only return known RESP dynamic types. Five crashes reachable from the socket were found by these obligations and repaired (known_findings.txt).",
-  note="Covers the deserializer and bit-field primitives only; command handlers' argument assertions and allocation sizes are not yet swept, and 'bounded time' is not a contract-level statement. Trusted: govc, solvers, helper stubs listed in evidence.",
+  note="Covers the deserializer, the bit-field primitives, the dictionary, BITCOUNT/GETRANGE/SETRANGE handlers and every store method; about 80 safety obligations are UNDECIDED and listed in the evidence - mostly type assertions on the argument map produced by the grammar-driven parser (no contract states the grammar) and sizes derived from counters assumed equal to element counts. 'Bounded time' and 'every request is answered' are not contract-level statements (malformed input makes a connection wait, DESIGN B.8). Trusted: govc, solvers, helper stubs listed in evidence. Known open defect with the same flavour: C04's unbounded table growth.",
   design="DESIGN.md §6 C13"),
  "C17": dict(
   text="Deductive proof of one SCAN/HSCAN/SSCAN step on the real dictScanUnlocked for every table size 2^4..2^31 (ghost instrumentation of first/next bucket): the step starts at the bucket of the cursor masked to the table, visits buckets in strictly increasing index order, skips only empty buckets between visits (quantified inner-loop invariant), and returns the bit-reversed index of the next bucket (0 at the end). Plus the arithmetic the full-iteration guarantee rests on, for every table size 2^4..2^31: hashToIndex places a key at Reverse32(hash)>>(32-k) inside the table (proved on the real function), cursor/index round trip, masking to a smaller table moves the normalised position back to the start of the containing bucket, growing splits bucket i into 2i,2i+1, and the successor of the last bucket is cursor 0 (bit-vector lemmas).",
@@ -25,7 +25,7 @@ CLAIMED.update({
 CLAIMED.update({
  "C08": dict(
   text="Deductive proof of the lock discipline that atomicity rests on, for all 111 store methods (the real bodies, every path incl. early returns and deferred unlocks): every read or write of store state (keyspace table, key objects, list nodes, hash/set tables, wait table) happens while the store lock is held (ghost 'held'), the lock is acquired at most once per command and released on every exit, helpers that assume the lock are only called with it, and typed accessors/key objects keep the tag-payload invariant. Linearizability then follows by the standard argument: each command's effect and reply are computed inside one critical section of one mutex.",
-  note="The composition step (one critical section per command => linearizable) is an argument over the proved per-method obligations, not itself machine-checked; the Go mutex and memory model are trusted; lock()/unlock()/acquireExclusive() wrappers and the keyspace dictionary are trusted contracts (listed in evidence); the two-store lock order of COPY/MOVE across databases is undecided (single ghost lock bit). Six methods that touched the key object after unlocking were found and repaired (known_findings.txt).",
+  note="The composition step (one critical section per command => linearizable) is an argument over the proved per-method obligations, not itself machine-checked; the Go mutex and memory model are trusted; command ids are proved non-zero (0 is the idle value of the exclusive-owner word) but their uniqueness among live commands is a stated assumption; the two-store lock order of COPY/MOVE across databases is undecided (single ghost lock bit); multi-key TOUCH/BLPOP take the lock once per key (DESIGN B.8). The keyspace dictionary is verified (C04). Six methods that touched the key object after unlocking were found and repaired (known_findings.txt).",
   design="DESIGN.md §6 C08"),
  "C16": dict(
   text="Deductive guard discipline: every access to a field with a declared guard (all store state, guarded by the store lock) in the 111 store methods and the key-object helpers carries a discharged obligation that the guard is held; two such accesses are therefore ordered by the mutex. Same obligations as C08, claimed here for the data-race reading.",
@@ -34,12 +34,12 @@ CLAIMED.update({
 })
 CLAIMED.update({
  "C19": dict(
-  text="Deductive proof of the dirty-marking half of persistence for all 111 store methods: on every path of every method, if the method changed what a key holds (any write to a key object's type/payload/deadline, a list node or list header, or any store/remove on a hash/set table or the keyspace table — tracked by a ghost bit set at the writes themselves), then the keyspace's dirty flag is set when the method returns, so the saver will write the change. Helpers are proved modularly (monotone dirty flag, 'mutated => dirty' per helper, loop invariants). Eight mutators that changed data without marking dirty were found and repaired.",
-  note="Partial: crash-atomicity of the snapshot write (os.Create on the live file), save/load symmetry and flush/reload behaviour are not yet under contract; the gob codec and the OS are outside this family. The dictionary primitives are trusted contracts. Violations of these heap-level obligations are reported with the solver's reason but without a replayed input (no-failing-input-found).",
+  text="Deductive proof of the dirty-marking half of persistence for all 111 store methods: on every path of every method, if the method changed what a key holds (any write to a key object's type/payload/deadline, a list node or list header, or any store/remove on a hash/set table or the keyspace table — tracked by a ghost bit set at the writes themselves), then the keyspace's dirty flag is set when the method returns, so the saver will write the change. Helpers are proved modularly (monotone dirty flag, 'mutated => dirty' per helper, loop invariants). Eight mutators that changed data without marking dirty were found and repaired. Snapshot files: the file system is ghost state driven by trusted stubs of os.Create/Rename/Remove/Close and gob Encode/Decode; save writes one header announcing exactly the number of occupied buckets, then per key a key header followed by one payload of the Go type its type flag selects (loop invariant counting occupied buckets), into a temporary file that replaces the live name only when closed, complete and error-free - no file system effect ever touches the live name otherwise (crash atomicity; the pinned tree truncated the live file in place: repaired); load reads the same shape, carries key, id, flags, deadlines and payload type of every record into the store, restores the version counter and clean flag, and leaves the store untouched on any error.",
+  note="Not decided: the gob codec round trip (uninterpreted), fsync/power-loss ordering, the OS. 'count equals the number of occupied buckets' is an assumed dictionary invariant. Element order of lists inside a payload and the round-trip lemma load(save(s)) = s are not machine-checked. Violations of these heap-level obligations are reported with the solver's reason but without a replayed input (no-failing-input-found).",
   design="DESIGN.md §6 C19"),
  "C10": dict(
   text="Deductive proof of the version discipline WATCH relies on, for all 111 store methods: whenever a method changes what a key holds, it also gives a key a new version (dataObjectNumber bump through newStoreKeyUnlocked/copy/move/setModified), removes a key from the keyspace, or its version touch found the key absent; helpers are proved modularly with monotone ghost bits. The in-place mutators (lists, hashes, sets, expiry) did not bump the version at all and hasChangedUnlocked ignored expiry; both were repaired.",
-  note="Partial and structural: the ghost bits are per command, not per key, so a multi-key command that bumps one key and mutates another in place is not distinguished; getIds/hasChangedUnlocked/isAbortedExecUnlocked consistency and the EXEC-aborts-iff lemma are not yet under contract. Dictionary primitives and getStoreKey are trusted contracts.",
+  note="Partial and structural: the ghost bits are per command, not per key, so a multi-key command that bumps one key and mutates another in place is not distinguished; getIds/hasChangedUnlocked/isAbortedExecUnlocked consistency and the EXEC-aborts-iff lemma are not under contract. getStoreKey is a trusted contract; the dictionary is verified (C04).",
   design="DESIGN.md §6 C10"),
 })
 CLAIMED.update({
@@ -57,17 +57,17 @@ CLAIMED.update({
 CLAIMED.update({
  "C14": dict(
   text="Deductive proof on the real database-table code: createDbUnlocked/getDb accept exactly indexes 0..15, never replace an existing database object and keep the table invariant (quantified over all indexes); selectDb changes the connection's selection only on success (rejected index leaves selectedDb and the cached store pointer untouched) and on success caches exactly the table's object for that index; flush empties the caller's database object in place under its own lock (count 0, marked dirty, lock released), flushDb leaves the table itself unchanged (every index maps to the same object as before) and empties the object of the requested index. The old drop-and-recreate flush (other connections kept the stale object) was found and repaired.",
-  note="flushAll's loop over the table (all entries flushed) and the 'handlers only write their own connection's state' frame obligations are not yet under contract; isolation between databases rests on C08's per-store obligations. newDataStore/newDataStoreCommand/load are trusted contracts.",
+  note="FLUSHALL's loop over the table is proved complete (ghost set of visited table indexes, collected list with a position witness); a bounded harness (all sets of up to 3 of 5 database indexes, FLUSHDB/FLUSHALL, run natively) looks for a witness when a restructured loop unbinds the invariants - labelled bounded, not counted as proof. Not under contract: the 'handlers only write their own connection's state' frame; isolation between databases rests on C08's per-store obligations. newDataStore is a trusted contract.",
   design="DESIGN.md §6 C14"),
 })
 CLAIMED.update({
  "C06": dict(
   text="Deductive proof of the keyspace discipline on the real store methods: (1) one type per key — every function that writes a key object's type tag or payload re-establishes the tag/payload invariant on that object at every exit (string tag <=> non-nil []byte payload, list tag <=> non-nil *storeList, hash/set tag <=> non-nil *redisDict, payload present => a type tag), the typed accessors return nil exactly for other types, and every object installed in a keyspace table is a key object carrying the store's newest version; (2) failed commands are inert — for every store method with a failure outcome (WRONGTYPE, wrong format, overflow, error pointer) that outcome implies that no key object, list node, table or deadline was written (ghost write bit); (3) clone (COPY) yields a well-formed object with the same type and deadline. COPY of lists/hashes/sets was broken and repaired.",
-  note="Not yet proved: 'no empty aggregate ever remains' for sets (SREM/SMOVE can leave an empty set — suspected defect, not yet under an obligation), the handlers' replies for DEL/EXISTS/TYPE/KEYS/RANDOMKEY/DBSIZE/SORT, glob matching, deep equality of COPY's result. RESTORE with forged flags violates the invariant and is reported as UNDECIDED (never proved). getStoreKey's 'stored values are key objects' is a trusted contract backed by the newest-version obligation on every keyspace store.",
+  note="RENAME/RENAMENX/MOVE/COPY place the key object under the destination name and remove it from the source exactly when the two differ (keyspace view clauses; RENAME k k keeps the key). Empty sets/hashes/lists delete their key (SREM, SMOVE, HDEL, the STORE forms, list pops). Not proved: the handlers' replies for DEL/EXISTS/TYPE/KEYS/RANDOMKEY/SORT, glob matching, deep equality of COPY's result. RESTORE with forged flags violates the invariant and is reported as UNDECIDED (never proved). getStoreKey's 'stored values are key objects' is a trusted contract backed by the newest-version obligation on every keyspace store; the dictionary itself is verified (C04).",
   design="DESIGN.md §6 C06"),
  "C07": dict(
   text="Deductive proof of the expiry discipline: the raw keyspace lookup (which ignores deadlines) may only be called from the four expiry-aware functions (call-site whitelist obligation on every call of getStoreKey in the package's contracted code); the expiry-aware lookups return a key only if its deadline has not passed at the time of the lookup (time is an input: every time.Now() is a fresh, monotone value); EXPIRE's NX/XX/GT/LT decision table, the reply (1 iff applied) and the stored deadline are proved against the table in the statement, and a missing key is left untouched. RENAME/COPY of expired keys and RANDOMKEY were expiry-blind and repaired.",
-  note="Not yet under contract: deadline arithmetic of SET EX/PX/EXAT/PXAT and EXPIRE* handlers (Duration overflow), TTL/PTTL/EXPIRETIME replies, keep-vs-clear TTL per mutator, DBSIZE counting expired keys, bucket iteration paths (KEYS/SCAN filter expiry in their callbacks, not checked here). Wall-clock agreement is outside this family.",
+  note="Also under contract: APPEND keeps the deadline, GETEX without an option leaves it alone, DBSIZE counts unexpired keys under the lock (all three repaired). Not under contract: deadline arithmetic of SET EX/PX/EXAT/PXAT and EXPIRE* handlers (Duration overflow), TTL/PTTL/EXPIRETIME replies, keep-vs-clear TTL of the remaining mutators, bucket iteration paths (KEYS/SCAN filter expiry in their callbacks, not checked here). Wall-clock agreement is outside this family.",
   design="DESIGN.md §6 C07"),
 })
 CLAIMED.update({
